@@ -449,9 +449,9 @@ impl Monitor for Mon07 {
             let realised = pr.pnl_spot()?.mul(&S::pos(frac)).div_trunc(&S::pos(d)).mag_u128()?;
             let penalty = fee(slice, s.pre.ecfg.liquidation_fee.u128(), d);
             let margin_fails = pr.margin < realised.saturating_add(penalty);
-            // the reply picks the arm by the sign of the size *after* the reduction: a short that is reduced to
-            // exactly zero (100 % ratio) goes through the long arm
-            let long_arm = pr.long || part >= pr.size;
+            // the open-notional formula of the position's own side (a short stays a short while it is being reduced, also
+            // when a 100 % ratio reduces it to exactly zero)
+            let long_arm = pr.long;
             let notional_fails = if long_arm { pr.notional < slice.saturating_add(realised) } else { pr.notional.saturating_add(realised) < slice };
             Some(margin_fails || notional_fails)
         })()
